@@ -127,16 +127,17 @@ Fixpoint sum_runs (r c acc : Z) (seq : list triple) : list triple :=
 Definition sum_coo_entries (seq : list triple) : list triple :=
   match isort_by triple_leb seq with
   | [] => []
-  | e0 :: _ as sorted => sum_runs (trow e0) (tcol e0) 0 sorted
+  | e0 :: rest => sum_runs (trow e0) (tcol e0) 0 (e0 :: rest)
   end.
 
 (* ---------- dictionaries ---------- *)
-Definition dict := list (Z * Z).
-Fixpoint lookup (k : Z) (d : dict) : option Z :=
+Fixpoint alookup {K V} (eqb : K -> K -> bool) (k : K) (d : list (K * V)) : option V :=
   match d with
   | [] => None
-  | (k', v) :: d' => if k' =? k then Some v else lookup k d'
+  | (k', v) :: d' => if eqb k' k then Some v else alookup eqb k d'
   end.
+Definition dict := list (Z * Z).
+Definition lookup (k : Z) (d : dict) : option Z := alookup Z.eqb k d.
 
 Definition sort_uniq (l : list Z) : list Z := isort_by Z.leb (nodup Z.eq_dec l).
 Definition enum_dict (keys : list Z) : dict := combine keys (map Z.of_nat (seq 0 (length keys))).
